@@ -34,6 +34,9 @@ PROPS = {
     "C02": dict(quick=4000, thorough=120000, events=None, runs_thorough=12),
     "C03": dict(quick=4000, thorough=120000, events=None, runs_thorough=12),
     "C15": dict(quick=4000, thorough=120000, events=None, runs_thorough=12),
+    "C11": dict(quick=5000, thorough=150000, events=None, runs_thorough=12),
+    "C12": dict(quick=5000, thorough=150000, events=None, runs_thorough=12),
+    "C16": dict(quick=5000, thorough=150000, events=None, runs_thorough=12),
     "C09": dict(quick=5000, thorough=150000, events=None, runs_thorough=12),
     "C10": dict(quick=5000, thorough=150000, events=None, runs_thorough=12),
 }
